@@ -474,24 +474,33 @@ _RUST_KW = {"as", "break", "const", "continue", "crate", "else", "enum", "extern
 
 def alpha_back(ref, cur):
     """{new: old} if `cur` is `ref` with local variables renamed consistently and nothing else changed (token-wise); {} if the
-    token streams are identical; None otherwise."""
+    token streams are identical; None otherwise.  A name may be renamed everywhere, or everywhere inside ONE brace block that
+    binds it (a shadowing binding renamed on its own)."""
     try:
         tr, tc = tokenize(ref), tokenize(cur)
     except Undecided:
         return None
     if len(tr) != len(tc):
         return None
-    fwd, bwd = {}, {}
-    for a, b in zip(tr, tc):
+    images, bwd = {}, {}
+    for i, (a, b) in enumerate(zip(tr, tc)):
         if a.kind != b.kind:
             return None
         if a.kind != "ident":
             if a.text != b.text:
                 return None
             continue
-        if fwd.setdefault(a.text, b.text) != b.text or bwd.setdefault(b.text, a.text) != a.text:
+        images.setdefault(a.text, {}).setdefault(b.text, []).append(i)
+        if bwd.setdefault(b.text, a.text) != a.text:
             return None
-    ren = {o: n for o, n in fwd.items() if o != n}
+    ren = {}
+    for o, im in images.items():
+        news = [n for n in im if n != o]
+        if not news:
+            continue
+        if len(news) > 1:
+            return None
+        ren[o] = (news[0], im[news[0]], im.get(o, []))      # new name, renamed positions, positions left alone
     if not ren:
         return {}
     ref_idents = {t.text for t in tr if t.kind == "ident"}
@@ -499,12 +508,33 @@ def alpha_back(ref, cur):
         bo = _body_open_index(tr)
     except Exception:
         return None
-    for old, new in ren.items():
+    for old, (new, occ, kept) in ren.items():
         if not _SNAKE.match(old) or not _SNAKE.match(new) or old in _RUST_KW or new in _RUST_KW:
             return None
         if new in ref_idents:               # the new name must be fresh: no capture
             return None
-        occ = [i for i, t in enumerate(tr) if t.kind == "ident" and t.text == old]
+        lo = bo
+        if kept:
+            # a partial rename: all renamed occurrences inside one brace block that holds no other occurrence of the name
+            if occ[0] <= bo:
+                return None
+            depth, lo = 0, None
+            for j in range(occ[0], bo - 1, -1):
+                if tr[j].text == "}":
+                    depth += 1
+                elif tr[j].text == "{":
+                    if depth == 0:
+                        hi = match_close(tr, j)
+                        if occ[-1] < hi:
+                            lo = j
+                            break
+                    else:
+                        depth -= 1
+            if lo is None or lo == bo:
+                return None
+            hi = match_close(tr, lo)
+            if any(lo < k < hi for k in kept):
+                return None
         for i in occ:
             prev = tr[i - 1].text if i > 0 else ""
             nxt = tr[i + 1].text if i + 1 < len(tr) else ""
@@ -518,9 +548,9 @@ def alpha_back(ref, cur):
         if i < bo:
             continue                        # in the signature: a parameter
         j = i - 1
-        while j > bo and (tr[j].kind == "ident" and tr[j].text not in ("let", "for", "in", "if", "while", "match", "return", "move")
+        while j > lo and (tr[j].kind == "ident" and tr[j].text not in ("let", "for", "in", "if", "while", "match", "return", "move")
                           or tr[j].text in (",", "(", ")", "&", "::")):
             j -= 1
-        if tr[j].text not in ("let", "for", "|"):
+        if j <= lo or tr[j].text not in ("let", "for", "|"):
             return None
-    return {n: o for o, n in ren.items()}
+    return {n: o for o, (n, _, _) in ren.items()}
